@@ -19,6 +19,11 @@ package main
 //      and result of a helper that takes and returns the pending line - that refer to it)
 //   m  widgets/pager: the column counter is not set to a constant between two appends to the same unstored
 //      line (it measures the pending line across segments and helper calls)            (c19_pager.go)
+//   n  widgets/pager: every newline cluster ends a line; only the one newline directly after a wrap may be
+//      absorbed (ghost bits over the predicate abstraction, newline branches recognised as edges)   (c19n.go)
+//      Lines may be collected in a local slice that is stored in Model.lines at the end (a "builder": every
+//      line end into it is followed by the store on every path to return); a local state struct with methods
+//      is dissolved into plain locals before the rules run (c19sra.go).
 //   c  vxfw/list: unsigned subtractions that reach an index or the scroll state are ordered by the facts in
 //      force; index expressions stay within [0,len); a selection change re-anchors the scroll state
 //      (wantsCursor raised under cursor >= top, or top = cursor with offset = 0) before the function
@@ -619,6 +624,7 @@ func runC19(c *Ctx) {
 	c19Ctx, c19Bind = nil, nil
 	// local closures that only name a block of statements are spliced into their call sites (c19norm.go)
 	if os.Getenv("VX_NO_NORMALISE") == "" {
+		c19NormaliseBundles(c) // local state structs with methods are dissolved into plain locals (c19sra.go)
 		c19NormaliseClosures(c)
 	}
 	debugDumpFuncs(c) // VX_DUMP_FN=... prints functions as the rules see them
